@@ -356,6 +356,17 @@ func (S) RunTape(t *sim.Tape, st *sim.Stats, keepLog bool) *sim.Outcome {
 		} else {
 			sig += "/WalkAdv"
 		}
+		// The property pins the KIND of error a budget produces (budget exceeded: node / link), not
+		// the path or link it carries: those are compared softly (probe), the kind strictly.
+		kindOf := func(c string) string {
+			if strings.HasPrefix(c, "budget:node:") {
+				return "budget:node"
+			}
+			if strings.HasPrefix(c, "budget:link:") {
+				return "budget:link"
+			}
+			return c
+		}
 		check := func(got walkRes, wantEvs []ev, wantErr []string, what string) bool {
 			if got.pan != "" {
 				o.Fail("panic", sig, "%s: walk panicked: %s", what, got.pan)
@@ -363,8 +374,11 @@ func (S) RunTape(t *sim.Tape, st *sim.Stats, keepLog bool) *sim.Outcome {
 			}
 			okErr := false
 			for _, we := range wantErr {
-				if errClass(got.err) == we {
+				if kindOf(errClass(got.err)) == kindOf(we) {
 					okErr = true
+					if errClass(got.err) != we {
+						st.Inc("probe.budget_error_details_differ")
+					}
 				}
 			}
 			wantEvs = filterM(wantEvs)
